@@ -208,9 +208,14 @@ def rand_index(rng, shape):
             ix.append({"slice": [a if rng.random() < 0.7 else None, b if rng.random() < 0.7 else None, st]})
         elif r < 0.9 and d > 0:
             n = rng.randint(1, 3)
-            e = {"array": [rng.randrange(d) for _ in range(n)], "shape": [n]}
+            neg = rng.random() < 0.4            # negative entries address the same items as non-negative ones (0 and -d alias)
+            e = {"array": [rng.randrange(-d, d) if neg else rng.randrange(d) for _ in range(n)], "shape": [n]}
+            if neg and rng.random() < 0.5:
+                e["array"][-1] = e["array"][0] - d if e["array"][0] >= 0 else e["array"][0] + d      # a literal alias: no entry repeats, a position does
             if rng.random() < 0.35:
-                e["dtype"] = rng.choice(["int32", "int16", "uint8", "uint64", "int8"])     # NumPy accepts any integer dtype as an index array
+                e["dtype"] = rng.choice(["int32", "int16", "int8"] if neg else ["int32", "int16", "uint8", "uint64", "int8"])     # NumPy accepts any integer dtype as an index array
+            elif rng.random() < 0.4:
+                e["as_list"] = True               # ... and a plain Python list
             ix.append(e)
         else:
             ix.append({"newaxis": True})
@@ -219,6 +224,8 @@ def rand_index(rng, shape):
         ix = ix[:1] + [{"ellipsis": True}]
     if not ix:
         return [{"ellipsis": True}] if rng.random() < 0.5 else [{"newaxis": True}]
+    if len(ix) == 1 and isinstance(ix[0], dict) and "array" in ix[0] and rng.random() < 0.5:
+        ix[0]["lone"] = True                      # x[idx] rather than x[(idx,)]
     return ix
 
 
